@@ -430,7 +430,7 @@ func rulePairReset(c *Ctx, dv *dev, at actionTable) {
 	fn := dv.fn["checkDoubleActions"]
 	c.Fn(shortFn(fn))
 	only := dv.withHelpers(map[*ssa.Function]bool{})
-	paths, err := Enumerate(fn, SymConfig{Prog: c.P, MaxDepth: 2, Collapse: true, OnlyInline: only})
+	paths, err := Enumerate(fn, SymConfig{Prog: c.P, MaxDepth: 2, Collapse: true, OnlyInline: only, MaxVisits: 7}) // a pair table written as a loop unrolls completely
 	if !c.Require(err == nil, "R4.7", "device.checkDoubleActions", fmt.Sprint(err)) {
 		return
 	}
@@ -492,8 +492,8 @@ func rulePairReset(c *Ctx, dv *dev, at actionTable) {
 		}
 		var called []*ssa.Function
 		for _, e := range p.Effects {
-			if e.Kind == "call" && e.Callee != nil && c.P.OwnedFunc(e.Callee) && !strings.HasSuffix(e.Callee.Name(), "logFields") {
-				called = append(called, e.Callee)
+			if e.Kind == "call" && e.Callee != nil && c.P.OwnedFunc(e.Callee) && !strings.HasSuffix(e.Callee.Name(), "logFields") && !strings.HasSuffix(e.Callee.Name(), "$thunk") && !strings.HasSuffix(e.Callee.Name(), "$bound") {
+				called = append(called, e.Callee) // (a method value taken from a table is called through a synthetic thunk: transparent)
 			}
 			if (e.Kind == "store" && !e.Local) || e.Kind == "mapset" || e.Kind == "mapdel" || e.Kind == "send" {
 				c.Bad("R4.7", "device.checkDoubleActions/effect", c.P.Pos(e.Instr.Pos()), "unexpected direct effect "+e.String())
